@@ -20,7 +20,9 @@ WalkSeqs(off, T) ==
                ELSE { <<[typ |-> t, size |-> s]>> }
                : t \in Types, s \in 0..(T - off + 9) }
 
-WParams == UNION { { [T |-> T, hs |-> hs] : hs \in WalkSeqs(8, T) } : T \in {x \in 16..MaxT : x % 8 = 0} }
+\* look: the bytes the walk does not arrive at are markers, or end-tag look-alikes (every 8-byte chunk of every payload
+\* reads type 0, size 8): the walk goes by the stored sizes, never by what the bytes in between look like
+WParams == UNION { { [T |-> T, hs |-> hs, look |-> lk] : hs \in WalkSeqs(8, T), lk \in BOOLEAN } : T \in {x \in 16..MaxT : x % 8 = 0} }
 
 RECURSIVE Place(_, _, _)
 \* byte image with the chosen headers placed along the walk
@@ -31,7 +33,7 @@ Place(mem, off, hs) ==
              off + RoundUp8(h.size), Tail(hs))
 
 WImage(p) ==
-  LET base == [i \in 1..p.T |-> Marker(i)]
+  LET base == [i \in 1..p.T |-> IF p.look THEN EndTagBytes[((i - 1) % 8) + 1] ELSE Marker(i)]
       withH == Place(base, 8, p.hs)
       hdr == U32Bytes(p.T) \o <<0, 0, 0, 0>> IN
   [i \in 1..p.T |-> IF i <= 8 THEN hdr[i]
@@ -44,18 +46,19 @@ Rep(call, n) == [i \in 1..n |-> call]
 WCase(p) ==
   LET n == Len(p.hs) + 3 IN
   [mem |-> WImage(p), al |-> 0,
-   calls |-> <<[op |-> "load"], [op |-> "tags", it |-> 0], [op |-> "next", it |-> 0],
+   calls |-> <<[op |-> "load"], [op |-> "tags", it |-> 0], [op |-> "next", it |-> 0], [op |-> "size_hint", it |-> 0],
                [op |-> "clone", it |-> 0, to |-> 1]>>
              \o <<[op |-> "last", it |-> 0], [op |-> "count", it |-> 0], [op |-> "clone", it |-> 0, to |-> 3], [op |-> "nth", it |-> 3, n |-> 1],
                   [op |-> "nth", it |-> 3, n |-> 0], [op |-> "nth", it |-> 3, n |-> 5], [op |-> "next", it |-> 3],
                   \* overshooting skip from a position that is not the end, then next(): the iterator must stay exhausted
                   [op |-> "tags", it |-> 4], [op |-> "nth", it |-> 4, n |-> 7], [op |-> "next", it |-> 4], [op |-> "count", it |-> 4]>>
-             \o Rep([op |-> "next", it |-> 0], n)
+             \o Rep([op |-> "next", it |-> 0], n) \o <<[op |-> "size_hint", it |-> 0]>>     \* also on an iterator that has panicked
              \o Rep([op |-> "next", it |-> 1], n)
-             \o <<[op |-> "module_tags", it |-> 2]>> \o Rep([op |-> "next", it |-> 2], n)
+             \o <<[op |-> "module_tags", it |-> 2], [op |-> "size_hint", it |-> 2]>> \o Rep([op |-> "next", it |-> 2], n)
+             \o <<[op |-> "size_hint", it |-> 2]>>
              \* a second load must change nothing: iterators made before stay valid, new ones start afresh; clone of a clone
              \o <<[op |-> "tags", it |-> 5], [op |-> "next", it |-> 5], [op |-> "load"], [op |-> "next", it |-> 5],
                   [op |-> "clone", it |-> 5, to |-> 6], [op |-> "clone", it |-> 6, to |-> 7], [op |-> "next", it |-> 7],
                   [op |-> "next", it |-> 5], [op |-> "tags", it |-> 8], [op |-> "next", it |-> 8]>>,
-   desc |-> [area |-> "walk", T |-> p.T, hs |-> p.hs]]
+   desc |-> [area |-> "walk", T |-> p.T, hs |-> p.hs, look |-> p.look]]
 =============================================================================
